@@ -126,6 +126,9 @@ def gen_inputs(run, roman, kata_tab):
     for k, v in kata_tab:
         ins.append(("kata", k))
         hist["kata"] += 1
+    for k, v in roman:                   # every kana the romaji table can produce, through katakana mode
+        ins.append(("kata", v))
+        hist["kata"] += 1
     for _ in range(3000 if thorough else 400):
         n = rng.below(7)
         ins.append(("kata", "".join(rng.pick(HIRA + "abtz09ーア&+") for _ in range(n))))
@@ -191,6 +194,15 @@ def oracles(run, impl, roman, kata_tab, ins):
             got = impl.kata(k)
             if got != v:
                 fails.append(("kata-row", {"kind": "kata-row", "input": k}, {"input": k, "expected": v, "got": got}))
+    # "maps every table kana": every kana the romaji table can produce must come out of katakana mode as katakana — no hiragana
+    # (U+3041–U+3096) may be left in the katakana of a typed kana
+    n_typed = 0
+    for k, v in roman:
+        got = impl.kata(v)
+        n_typed += 1
+        if got is None or any(0x3041 <= ord(c) <= 0x3096 for c in got):
+            fails.append(("kata-typed", {"kind": "kata-typed", "input": v},
+                          {"input": v, "typed": k, "kana": v, "katakana_mode_yields": got, "left_unmapped": [c for c in (got or "") if 0x3041 <= ord(c) <= 0x3096]}))
     for op, s in ins:
         if op != "kata":
             continue
@@ -199,7 +211,7 @@ def oracles(run, impl, roman, kata_tab, ins):
         if got != exp:
             fails.append(("kata", {"kind": "kata", "input": s}, {"input": s, "expected": exp, "got": got}))
     run.cov["oracle_checks"] = {"table_rows": len(roman), "idempotent": n_idem, "passthrough": n_pass, "sokuon": n_sok,
-                                "kata_rows": len(first)}
+                                "kata_rows": len(first), "kata_typed": n_typed}
     return fails
 
 
